@@ -302,6 +302,21 @@ pub fn check_live(
             return;
         }
     };
+    // a server that resolves no versions looks every request up with "no version", which
+    // matches every range: declared version ranges could not be honoured, so such a
+    // server must not start for an API that has any (and must start for one that has none)
+    let any_versioned = decls.iter().any(|d| !d.versions.mrange().is_all());
+    let want = if any_versioned { "refused" } else { "started" };
+    for (style, got) in [("fn", &srv.unversioned_start.0), ("tr", &srv.unversioned_start.1)] {
+        rep.count("unversioned_start_attempts", 1);
+        if got != want && got != "?" {
+            rep.violate(
+                "C19:attribute-not-honoured:versions",
+                cx.wit(None, json!({"style": style, "where": "a server without a version policy", "expected": want, "observed": got,
+                    "declarations_with_a_version_range": decls.iter().filter(|d| !d.versions.mrange().is_all()).count()})),
+            );
+        }
+    }
     let mut uid = 1u64;
     for d in decls {
         for p in probes_for(d, decls, versions) {
